@@ -5,6 +5,8 @@ CONSTANTS
   MaxSec = 0
   Timeouts = FALSE
   Handoff = TRUE
+  Eager = TRUE
+  Fifo = FALSE
   MaxWait = 1
   UniqueVals = FALSE
   Ghost = FALSE
